@@ -471,3 +471,122 @@ class TimedState(ADT):
 
     def __pv_havoc__(self, name):
         return TimedState(self.date.__pv_havoc__(name + "_date"), self.tag)
+
+
+def round_us(seconds):
+    """integer microseconds nearest to `seconds` (S5: timedelta constructors round to the nearest microsecond,
+    ties to even; only |error| <= 0.5 us is used)"""
+    import z3
+    if isinstance(seconds, (int, float)) and not isinstance(seconds, bool):
+        return int(round(seconds * 1e6))
+    run = sym.cur()
+    e = sym.real_expr(seconds) * 1000000
+    k = run.fresh("us", "int")
+    run.add_def(k, 2 * z3.ToReal(k) <= 2 * e + 1, 2 * z3.ToReal(k) >= 2 * e - 1)
+    return sym.SInt(k)
+
+
+def sym_timedelta(days=0, seconds=0, microseconds=0, milliseconds=0, minutes=0, hours=0, weeks=0):
+    """stand-in for the datetime.timedelta constructor"""
+    total = seconds + 60 * minutes + 3600 * hours
+    us = round_us(total) if not (isinstance(total, int)) else total * 1000000
+    dd = days + 7 * weeks
+    if isinstance(dd, (sym.SReal, float)):
+        us = us + round_us(dd * 86400)
+    else:
+        us = us + dd * 86400 * 1000000
+    us = us + microseconds + 1000 * milliseconds
+    return SymTimedeltaUs(us)
+
+
+class SymDatetimeUs(ADT):
+    """naive datetime.datetime as integer microseconds since MJD_T0 = 1858-11-17 (S5)"""
+
+    def __init__(self, us):
+        self.us = us
+        self.tzinfo = None
+
+    def __pv_isinstance__(self, cls):
+        import datetime
+        return cls is datetime.datetime or cls is SymDatetimeUs
+
+    def __add__(self, o):
+        u = _us_of(o)
+        return SymDatetimeUs(self.us + u) if u is not None else NotImplemented
+
+    __radd__ = __add__
+
+    def __sub__(self, o):
+        import datetime
+        if isinstance(o, SymDatetimeUs):
+            return SymTimedeltaUs(self.us - o.us)
+        if isinstance(o, datetime.datetime):
+            if o == datetime.datetime(1858, 11, 17):
+                return SymTimedeltaUs(self.us)
+            raise sym.EngineLimit("difference with a concrete datetime other than MJD_T0")
+        u = _us_of(o)
+        return SymDatetimeUs(self.us - u) if u is not None else NotImplemented
+
+    def __eq__(self, o):
+        return isinstance(o, SymDatetimeUs) and sym.cmp(self.us, o.us, "==")
+
+    __hash__ = object.__hash__
+
+
+def _td_components(self):
+    """days / seconds / microseconds of a timedelta (python normalisation: 0 <= seconds < 86400, 0 <= us < 10^6)"""
+    us = self.us
+    day_us = 86400 * 1000000
+    days = us // day_us
+    rem = us - days * day_us
+    secs = rem // 1000000
+    micro = rem - secs * 1000000
+    return days, secs, micro
+
+
+SymTimedeltaUs.days = property(lambda self: _td_components(self)[0])
+SymTimedeltaUs.seconds = property(lambda self: _td_components(self)[1])
+SymTimedeltaUs.microseconds = property(lambda self: _td_components(self)[2])
+
+
+def _td_mod(self, o):
+    u = _us_of(o)
+    if u is None:
+        return NotImplemented
+    return SymTimedeltaUs(self.us % u)
+
+
+def _td_div(self, k):
+    u = _us_of(k)
+    if u is not None:
+        return sym.SReal(sym.real_expr(self.us)) / sym.SReal(sym.real_expr(u))
+    return SymTimedeltaUs._div_int(self, k)
+
+
+SymTimedeltaUs._div_int = SymTimedeltaUs.__truediv__
+SymTimedeltaUs.__truediv__ = _td_div
+SymTimedeltaUs.__mod__ = _td_mod
+SymTimedeltaUs.__bool__ = lambda self: bool(self.us != 0)
+
+
+def _real_plus_td(real_dt, td):
+    import datetime
+    if real_dt == datetime.datetime(1858, 11, 17):
+        return SymDatetimeUs(td.us)
+    raise sym.EngineLimit("concrete datetime + symbolic timedelta (only MJD_T0 is supported)")
+
+
+_old_radd = SymTimedeltaUs.__radd__
+
+
+def _td_radd(self, o):
+    import datetime
+    if isinstance(o, datetime.datetime):
+        return _real_plus_td(o, self)
+    return _old_radd(self, o)
+
+
+SymTimedeltaUs.__radd__ = _td_radd
+
+
+sym_timedelta.__pv_instancecheck__ = lambda obj: isinstance(obj, (SymTimedeltaUs, SymTimedelta))
